@@ -20,7 +20,7 @@ func init() {
 		Level:     "exploration",
 		Technique: "effect-level ownership monitor at every commit of the fake Postgres + before/after comparison of every other pair's state around each step + per-pair reference projection at quiescence; sequential and concurrent interleavings with wire delays",
 		Rule: "each case draws 1–2 sources and 2–4 integrations (shared or separate tables; same event with different address filters, or independent declarations of mixed modes; integrations attached to one or both sources), batch/concurrency per source, " +
-			"then interleaves steps of all pairs in random order (even cases: sequentially, comparing every other pair's rows and positions before/after each step; odd cases: rounds of truly concurrent Converge calls with random delays at both wire boundaries), with head growth, reorgs on one source (hash plans) and restarts, " +
+			"then interleaves steps of all pairs in random order (even cases: sequentially, comparing every other pair's rows and positions before/after each step; odd cases: rounds of truly concurrent Converge calls with random delays at both wire boundaries), with head growth, reorgs on one source (hash plans), restarts and position-history pruning (PruneTask with a small keep count: every pair must retain exactly its newest positions), " +
 			"and finally settles and compares every pair's rows with its own projection. signature = (sources, integrations, table sharing, modes, concurrent?, reorgs?, restarts?); trivial = fewer than two pairs wrote rows.",
 		Assumptions: []string{
 			"the pair a transaction acts for is the pair named in its shovel.task_updates statements",
@@ -38,7 +38,7 @@ func init() {
 		CrashIsViolation: true,
 		CaseTimeoutS:     300,
 		MinObs: func(tier string) map[string]int64 {
-			return map[string]int64{"commits_ownership_checked": 1500, "other_pair_comparisons": 1500, "pair_final_verdicts": 200, "concurrent_rounds": 100, "shared_table_cases": 20, "shared_source_cases": 40, "reorgs_applied": 20, "restarts": 20}
+			return map[string]int64{"commits_ownership_checked": 1500, "other_pair_comparisons": 1500, "pair_final_verdicts": 200, "concurrent_rounds": 100, "shared_table_cases": 20, "shared_source_cases": 40, "reorgs_applied": 20, "restarts": 20, "prunes": 40}
 		},
 	})
 }
@@ -171,6 +171,8 @@ func multiPairScenario(c *vk.Case, kp string, concurrent, reorgs bool, minShare 
 			nreorg++
 			c.Obs("reorgs_applied", 1)
 			me.trace = append(me.trace, fmt.Sprintf("reorg(%s,%d)", namePoolSrc[0], d))
+		case k == 3 && r.Chance(1, 2):
+			me.prune(r.Range(1, 4))
 		case k == 2 && !concurrent:
 			me.env.Crash()
 			if me.env.SetupErr != nil {
